@@ -27,12 +27,19 @@ def main():
         tasks = [rtasks.Sleeper(k=i, seconds=2.5) for i in range(4)]   # 2 run at once, 2 stay queued
         pid = os.getpid()
 
+        def ctrl_c():
+            # what a terminal does: SIGINT to the whole foreground process group (caller AND workers)
+            if os.getpgid(0) == pid:
+                os.killpg(pid, signal.SIGINT)
+            else:
+                os.kill(pid, signal.SIGINT)
+
         def fire():
             time.sleep(0.6)
-            os.kill(pid, signal.SIGINT)
+            ctrl_c()
             if mode == 'double':
                 time.sleep(0.25)
-                os.kill(pid, signal.SIGINT)
+                ctrl_c()
         threading.Thread(target=fire, daemon=True).start()
         t0 = time.time()
         try:
@@ -41,6 +48,7 @@ def main():
         except BaseException as e:
             rec['out'] = type(e).__name__
         rec['elapsed'] = round(time.time() - t0, 2)
+        rec['process_group_signal'] = os.getpgid(0) == pid
         time.sleep(0.3)
         lines = open(rtasks.LOG).read().split() if os.path.exists(rtasks.LOG) else []
         rec['started'] = sorted(int(l[1:]) for l in lines if l[0] == 's')
